@@ -215,6 +215,9 @@ def sib2(ctx, pid):
                 exc = rs.exc
                 args = [eng.ev(a, f, st) for a in exc.args] if isinstance(exc, ast.Call) else []
                 wantargs = [("slice", key, None, ("bin", "-", ("len", key), ("len", rem))), ann, rem]
+                # key[:-len(residual)] is the same prefix wherever the residual is known to be non-empty
+                if lo >= 1 and len(args) == 3 and args[0] == ("slice", key, None, ("un", "-", ("len", rem))):
+                    args = [wantargs[0]] + args[1:]
                 outs.add((res, "raise TraversedPartialPath(consumed prefix, annotate(node), residual)" if p.exit[1].endswith("TraversedPartialPath") and args == wantargs
                           else "raise %s(%s)" % (p.exit[1].split(".")[-1], ", ".join(tstr(a)[:30] for a in args))))
         rows[name] = outs
